@@ -61,8 +61,20 @@ fn gen(rng: &mut Rng, idx: u64, tier: Tier) -> Case {
             if rng.chance(0.7) { a2.push(format!("--observer-coord={:.3}, {:.3}", rng.f64() * 160.0 - 80.0, rng.f64() * 340.0 - 170.0)); }
         }
         let ch = *rng.pick(&[Chunking::Line, Chunking::Line, Chunking::Multi, Chunking::Pieces]);
-        let mut script = Script::file(a1, gen::ops_of(rng, lines, ch));
-        script.tcp = rng.chance(0.2);
+        let mut script = Script::file(a1, vec![]);
+        script.tcp = rng.chance(0.25);
+        if script.tcp && rng.chance(0.6) && lines.len() >= 2 {
+            let cut = rng.range(1, lines.len() as i64 - 1) as usize;
+            let rest = lines.split_off(cut);
+            let mut first = gen::ops_of(rng, lines, ch);
+            first.push(if rng.chance(0.6) { crate::script::Op::Eof { dt_us: 0 } } else { crate::script::Op::Err { dt_us: 0, kind: "ConnectionReset".into() } });
+            let mut conns = vec![crate::script::Conn::Accept { ops: first }];
+            if rng.chance(0.3) { conns.push(crate::script::Conn::Refuse { kind: "ConnectionRefused".into() }); }
+            conns.push(crate::script::Conn::Accept { ops: gen::ops_of(rng, rest, ch) });
+            script.conns = conns;
+        } else {
+            script.conns = vec![crate::script::Conn::Accept { ops: gen::ops_of(rng, lines, ch) }];
+        }
         script.log_level = rng.pick(&["off", "off", "error", "debug"]).to_string();
         let ll2 = rng.pick(&["off", "error", "info", "trace"]).to_string();
         Case { property: "C19".into(), mode: if with_o { "presentation+O".into() } else { "presentation".into() }, script, args_b: Some(a2), log_level_b: Some(ll2), meta: serde_json::Value::Null }
